@@ -8,7 +8,9 @@ from .. import common
 from ..common import rat, unrat
 
 PROP = "C12"
-RULE = ("op histories (wf[i]=v, wf[a:b]=v, bind, flip_wavefunction, save+load) on numeric / symbolic / mixed vectors built "
+RULE = ("op histories (wf[i]=v, wf[a:b]=v, bind incl. empty / foreign-only maps, flip_wavefunction, save+load) in which EVERY object "
+        "the history produced stays alive, later operations address any of them, and after each operation all other objects must "
+        "hold exactly what they held; on numeric / symbolic / mixed vectors built "
         "from Pythagorean rationals, constructor-only cases of every length 0..9, dicke_state for all (n,k) up to the tier's "
         "width plus invalid requests, the Gosper step on random integers, flip_amplitudes on index vectors, hand-made "
         "amplitude files; non-trivial: a history with >=1 rejected and >=1 accepted op, a Dicke state with 1<k<n, "
@@ -157,8 +159,13 @@ def _entries_sympy(wf, np, sympy):
 def _probs(wf, np):
     if wf.free_symbols:
         return None
-    p = np.asarray(wf.get_probabilities()).reshape(-1)
-    return [float(x) for x in p]
+    raw = wf.get_probabilities()
+    p = np.asarray(raw).reshape(-1)
+    vals = [float(x) for x in p]
+    # results are values: scribbling over the returned array must not reach the object (snapshots are taken afterwards)
+    if isinstance(raw, np.ndarray) and raw.flags.writeable and raw.dtype != object:
+        raw[...] = 7.0
+    return vals
 
 
 class _CaseTimeout(Exception):
@@ -228,6 +235,20 @@ def corpus():
                  {"op": "slice", "start": None, "stop": 0, "vals": []}, {"op": "flip"}]},
         # float boundary (not a violation): the numeric part is exactly 1 but 0.1479… + 0.8520… rounds above 1.0
         {"kind": "ops", "exact": True, "vec": [["5/13", 0], [0, "12/13"], _X("x"), [0, 0]], "ops": []},
+        # aliasing: bind with an empty / foreign-only map, then accepted and rejected assignments on either object;
+        # every object the history produced must keep holding what it held
+        {"kind": "ops", "exact": True, "vec": [_X("alpha"), ["1/2", 0], _X("beta"), ["1/2", 0]],
+         "ops": [{"op": "bind", "map": [["gamma", ["3/10", 0]]], "on": 0},
+                 {"op": "set", "i": 0, "val": ["1/2", 0], "on": 1}, {"op": "set", "i": 2, "val": [1, 0], "on": 1},
+                 {"op": "bind", "map": [["alpha", ["1/2", 0]], ["beta", ["1/2", 0]]], "on": 0}]},
+        {"kind": "ops", "exact": True, "vec": [_X("alpha"), ["1/2", 0], _X("beta"), ["1/2", 0]],
+         "ops": [{"op": "bind", "map": [], "on": 0},
+                 {"op": "set", "i": 0, "val": ["1/2", 0], "on": 0}, {"op": "set", "i": 2, "val": [1, 0], "on": 0},
+                 {"op": "bind", "map": [["alpha", ["1/2", 0]], ["beta", ["1/2", 0]]], "on": 1}]},
+        {"kind": "ops", "exact": False, "vec": [["3/5", 0], [0, "4/5"], [0, 0], [0, 0]],
+         "ops": [{"op": "flip", "on": 0}, {"op": "reload", "on": 0}, {"op": "bind", "map": [], "on": 0},
+                 {"op": "slice", "start": 0, "stop": 2, "vals": [[0, "4/5"], ["3/5", 0]], "on": 0},
+                 {"op": "set", "i": 0, "val": [1, 0], "on": 1}, {"op": "set", "i": 1, "val": [0, "-3/5"], "on": 2}]},
         {"kind": "dicke", "n": 4, "k": 2},
         {"kind": "dicke", "n": 3, "k": 3},
         {"kind": "dicke", "n": 0, "k": 0},
@@ -478,6 +499,74 @@ def _gen_symbolic_ops(rng, big):
     return {"kind": "ops", "exact": exact, "vec": vec, "ops": ops}
 
 
+def _gen_alias_ops(rng, big):
+    """several objects per history: producing operations (bind with an empty map, with foreign symbols only, with own
+    symbols, to symbols; flip; save+load) interleaved with accepted and rejected assignments on ANY live object"""
+    nq = rng.choice([1, 1, 2, 2, 2, 3] + ([3, 4] if big else []))
+    n = 2 ** nq
+    dy = rng.random() < 0.3
+    exact = True if not dy else rng.random() < 0.5
+    target = _unit_vector(rng, n, dy)
+    vec = [_j(z) for z in target]
+    names = ["x", "y", "z"]
+    good = {}
+    symbolic = rng.random() < 0.7
+    if symbolic:
+        for p_, nm in zip(rng.sample(range(n), rng.randrange(1, min(n, 3) + 1)), names):
+            coef = rng.choice([Fraction(1), Fraction(1, 2), Fraction(-1), Fraction(2)])
+            good[nm] = _mulc(target[p_], (1 / coef, Fraction(0)))
+            vec[p_] = {"c": [0, 0], "t": [[nm, [rat(coef), 0]]]}
+    ops = []
+    for _ in range(rng.randrange(3, 10 if big else 8)):
+        on = rng.randrange(0, 6)
+        r = rng.random()
+        if r < 0.16:
+            ops.append({"op": "bind", "map": [], "on": on})
+        elif r < 0.30:
+            m = [[nm, _j(_pool_value(rng, dy))] for nm in rng.sample(["u", "v", "gamma"], rng.randrange(1, 3))]
+            ops.append({"op": "bind", "map": m, "on": on})
+        elif r < 0.40 and good:
+            chosen = rng.sample(sorted(good), rng.randrange(1, len(good) + 1))
+            t = rng.random()
+            m = [[nm, _j(good[nm]) if t < 0.6 else (_X("u") if t < 0.75 else _j(_pool_value(rng, dy)))] for nm in chosen]
+            ops.append({"op": "bind", "map": m, "on": on})
+        elif r < 0.48:
+            ops.append({"op": "flip", "on": on})
+        elif r < 0.54:
+            ops.append({"op": "reload", "on": on})
+        elif r < 0.84:
+            i = rng.randrange(-n, n)
+            t = rng.random()
+            if t < 0.55:
+                val = _j(_mulc(target[i % n], tuple(map(Fraction, rng.choice(PHASES[:4] if dy else PHASES)))))
+            elif t < 0.7 and symbolic:
+                val = _X(rng.choice(names), rng.choice([1, -1, Fraction(1, 2)]))
+            else:
+                val = _j(_pool_value(rng, dy))
+            ops.append({"op": "set", "i": i, "val": val, "on": on})
+        else:
+            a = rng.choice([None, 0, rng.randrange(0, n + 1)])
+            b = rng.choice([None, n, 0, rng.randrange(0, n + 1)])
+            ps = list(range(*slice(a, b).indices(n)))
+            t = rng.random()
+            if t < 0.5 and ps:
+                vals = [target[p_] for p_ in ps]
+                rng.shuffle(vals)
+                ops.append({"op": "slice", "start": a, "stop": b, "vals": [_j(v) for v in vals], "on": on})
+            else:
+                ops.append({"op": "slice", "start": a, "stop": b, "val": _j(_pool_value(rng, dy)), "on": on})
+    return {"kind": "ops", "exact": exact, "vec": vec, "ops": ops}
+
+
+def _scatter(rng, case):
+    """let some operations of a single-chain history address an earlier object of the history"""
+    if rng.random() < 0.5:
+        for op in case["ops"]:
+            if rng.random() < 0.35:
+                op["on"] = rng.randrange(0, 5)
+    return case
+
+
 EXPR_CASES = [
     (["cos(t)", "sin(t)"], [{"t": "3/10"}]),
     (["cos(t)", "I*sin(t)", "0", "0"], [{"t": "7/5"}]),
@@ -507,9 +596,11 @@ def generate(rng, tier):
                 vec = ([_X("x")] + [[0, 0]] * (n - 1)) if n else []
             cases.append({"kind": "ops", "exact": variant == 2, "vec": vec, "ops": []})
     for _ in range(3000 if big else 180):
-        cases.append(_gen_numeric_ops(rng, big))
+        cases.append(_scatter(rng, _gen_numeric_ops(rng, big)))
     for _ in range(3000 if big else 180):
-        cases.append(_gen_symbolic_ops(rng, big))
+        cases.append(_scatter(rng, _gen_symbolic_ops(rng, big)))
+    for _ in range(2500 if big else 160):
+        cases.append(_gen_alias_ops(rng, big))
     for exprs, binds in EXPR_CASES:
         cases.append({"kind": "expr", "vec": exprs, "binds": binds})
     # Dicke states: all (n, k) up to the width, and invalid requests
@@ -613,10 +704,21 @@ def run_impl(c):
             wf = W.Wavefunction([_to_py(e, exact, sympy) for e in c["vec"]])
         except ValueError as e:
             return {"init": "err:value", "msg": str(e)[:60]}
-        out = {"init": {"snap": _snap(wf, np, sympy), "probs": _probs(wf, np)}, "steps": []}
+        probs0 = _probs(wf, np)
+        out = {"init": {"snap": _snap(wf, np, sympy), "probs": probs0}, "steps": []}
+        objs = [wf]  # EVERY object the history produced stays alive and is inspected after every later operation
         for op in c["ops"]:
-            wf, res, extra = _apply_op(W, np, sympy, wf, op, exact)
-            out["steps"].append({"out": res, "snap": _snap(wf, np, sympy), "probs": _probs(wf, np), **extra})
+            k = (op["on"] % len(objs)) if "on" in op else len(objs) - 1
+            after, res, extra = _apply_op(W, np, sympy, objs[k], op, exact)
+            new_idx = None
+            r = next((j for j, o in enumerate(objs) if o is after), None)
+            if r is None:
+                objs.append(after)
+                r = new_idx = len(objs) - 1
+            probs = _probs(objs[r], np)
+            snaps = [_snap(o, np, sympy) for o in objs]
+            out["steps"].append({"out": res, "target": k, "result": r, "new": new_idx, "snaps": snaps,
+                                 "snap": snaps[r], "probs": probs, **extra})
         _SEEN_OUTCOMES[common.canon(c)] = (any(s_["out"] == "ok" for s_ in out["steps"]),
                                            any(s_["out"] != "ok" for s_ in out["steps"]))
         return out
@@ -689,10 +791,21 @@ def run_impl(c):
             a = W.flip_amplitudes(list(range(n)))
         except (TypeError, ValueError, IndexError) as e:
             return {"err": _err(e)}
+        raw = a
         a = [int(x) for x in a]
         res = {"res": a}
         if len(a) == n:
             res["twice"] = [int(x) for x in W.flip_amplitudes(a)]
+        # results are values / arguments are not modified: scribble over the returned array, call again on an ndarray
+        try:
+            if isinstance(raw, np.ndarray) and raw.flags.writeable:
+                raw[...] = -1
+            arg = np.arange(n)
+            again = W.flip_amplitudes(arg)
+            res["again"] = [int(x) for x in again]
+            res["arg_intact"] = [int(x) for x in arg] == list(range(n))
+        except Exception as e:  # noqa: BLE001 – judged by the oracle
+            res["again_error"] = repr(e)[:100]
         return res
     if k == "load":
         import json
@@ -712,9 +825,22 @@ def run_impl(c):
                 return {"err": "err:value", "msg": str(e)[:60]}
             s1 = _snap(wf, np, sympy)
             W.save_wavefunction(wf, path2)
-            wf2 = W.load_wavefunction(path2)
+            saved_intact = _snap(wf, np, sympy)["exact"] == s1["exact"]
+            try:
+                wf2 = W.load_wavefunction(path2)
+            except ValueError as e:
+                return {"snap": s1, "reload_error": str(e)[:80]}
             s2 = _snap(wf2, np, sympy)
-            return {"snap": s1, "again": s2}
+            res = {"snap": s1, "again": s2, "saved_intact": saved_intact}
+            # two loads of one file are two objects: an accepted assignment on one must not reach the other
+            try:
+                wf3 = W.load_wavefunction(path2)
+                wf2[:] = np.roll(np.asarray(wf2.amplitudes).reshape(-1).copy(), 1)
+                res["sibling"] = _snap(wf3, np, sympy)["exact"]
+                res["source_after"] = _snap(wf, np, sympy)["exact"]
+            except Exception as e:  # noqa: BLE001 – judged by the oracle
+                res["sibling_error"] = repr(e)[:100]
+            return res
         finally:
             os.unlink(path)
             os.unlink(path2)
@@ -722,10 +848,30 @@ def run_impl(c):
 
 
 # ------------------------------------------------------------------ model requests / comparison
+def _strip_on(op):
+    return {kk: v for kk, v in op.items() if kk != "on"}
+
+
+def _lineages(c, out):
+    """per live object: the indices of the operations that made its value (the operations on its ancestors before it
+    was produced, the producing operation, the operations on itself).  The model follows one object at a time."""
+    if not isinstance(out, dict) or "steps" not in out:
+        return [list(range(len(c["ops"])))]
+    lin = {0: []}
+    for t, st in enumerate(out["steps"]):
+        k = st["target"]
+        if st["new"] is not None:
+            lin[st["new"]] = lin[k] + [t]
+        else:
+            lin[k] = lin[k] + [t]
+    return [lin[j] for j in range(len(lin))]
+
+
 def requests(c, out):
     k = c["kind"]
     if k == "ops":
-        return [("run", {"vec": c["vec"], "col": False, "ops": c["ops"]})]
+        lins = _lineages(c, out)
+        return [("run", {"vec": c["vec"], "col": False, "ops": [_strip_on(c["ops"][t]) for t in lin]}) for lin in lins]
     if k == "dicke":
         return [("dicke", {"n": c["n"], "k": c["k"]})]
     if k == "gosper":
@@ -818,17 +964,30 @@ def compare(c, out, resp):
         msg = _cmp_state(mi, ii)
         if msg:
             return "after construction: " + msg
-        for t, (ms, is_) in enumerate(zip(r["steps"], out["steps"])):
-            if ms["out"] != is_["out"]:
-                if is_["out"] == "err:value" and ms["out"] == "ok" and _boundary(c, ms):
-                    SKIPPED["float_boundary"] += 1
-                    return None
-                return f"op {t} {c['ops'][t]}: model {ms['out']}, implementation {is_['out']} ({is_.get('msg', '')})"
-            msg = _cmp_state(ms, is_)
-            if msg:
-                return f"after op {t} {c['ops'][t]} ({ms['out']}): {msg}"
-        if len(r["steps"]) != len(out["steps"]):
-            return "different number of steps"
+        lins = _lineages(c, out)
+        if len(lins) != len(resp):
+            return f"{len(lins)} objects, {len(resp)} model runs"
+        for j, (lin, rj) in enumerate(zip(lins, resp)):
+            if isinstance(rj, dict) and "driver_error" in rj:
+                return "driver error: " + rj["driver_error"]
+            if isinstance(rj.get("init"), str) or len(rj["steps"]) != len(lin):
+                return f"object {j}: model run has no/other steps"
+            for ms, t in zip(rj["steps"], lin):
+                is_ = out["steps"][t]
+                if ms["out"] != is_["out"]:
+                    if is_["out"] == "err:value" and ms["out"] == "ok" and _boundary(c, ms):
+                        SKIPPED["float_boundary"] += 1
+                        return None
+                    return f"op {t} {c['ops'][t]}: model {ms['out']}, implementation {is_['out']} ({is_.get('msg', '')})"
+                msg = _cmp_state(ms, is_)
+                if msg:
+                    return f"after op {t} {c['ops'][t]} ({ms['out']}) [object {is_['result']}]: {msg}"
+            # what object j holds at the END of the whole history (operations on other objects must not have reached it)
+            if out["steps"]:
+                last = rj["steps"][-1] if rj["steps"] else mi
+                msg = _cmp_state({"store": last["store"], "probs": None}, {"snap": out["steps"][-1]["snaps"][j], "probs": None})
+                if msg:
+                    return f"object {j} at the end of the history: {msg}"
         return None
     if k == "dicke":
         if "timeout" in out:
@@ -950,14 +1109,20 @@ def oracle(c, out):
         pf = _probs_fail(prev, init["probs"])
         if pf:
             return ("probabilities", pf)
+        held = [prev]  # what every live object holds (results are values: only the object operated on may change)
         for t, (op, st) in enumerate(zip(c["ops"], out["steps"])):
-            snap = st["snap"]
-            where = f"op {t} {op} on {_show(prev)}"
+            k, r, snaps = st["target"], st["result"], st["snaps"]
+            prev, snap = held[k], snaps[r]
+            where = f"op {t} {op} on object {k} = {_show(prev)}"
             mat_slice = prev["kind"] == "mat" and op["op"] == "slice"
             if st["out"] != "ok":
                 if snap["exact"] != prev["exact"] or snap["kind"] != prev["kind"]:
                     sig = SIG_MATRIX_SLICE if mat_slice else "rejected-op-modified"
                     return (sig, f"{where} raised {st['out']} but left the object as {_show(snap)}")
+                if op["op"] in ("flip", "reload") and prev["kind"] in ("arr1", "arr2"):
+                    # a valid numeric object can always be flipped, and saved and loaded again
+                    return ("saveload-raise" if op["op"] == "reload" else "flip-raise",
+                            f"{where} raised {st['out']} ({st.get('msg', '')})")
             msg = _inv_fail(snap)
             if msg:
                 sig = SIG_MATRIX_SLICE if mat_slice else "op-breaks-normalisation"
@@ -971,7 +1136,18 @@ def oracle(c, out):
             pf = _probs_fail(snap, st["probs"])
             if pf:
                 return ("probabilities", f"after {where}: {pf}")
-            prev = snap
+            # every OTHER live object (the receiver of bind / flip / save+load included) holds exactly what it held
+            for j, sj in enumerate(snaps):
+                if j == r or j >= len(held):
+                    continue
+                if sj["exact"] != held[j]["exact"] or sj["kind"] != held[j]["kind"]:
+                    sig = "receiver-modified" if j == k else "other-object-modified"
+                    return (sig, f"{where} ({st['out']}) changed object {j} (produced earlier in this history, not operated "
+                                 f"on) from {_show(held[j])} to {_show(sj)}")
+                msg = _inv_fail(sj)
+                if msg:
+                    return ("other-object-modified", f"after {where}: object {j} = {_show(sj)}: {msg}")
+            held = list(snaps)
         return None
     if k == "expr":
         if isinstance(out["init"], str):
@@ -1037,6 +1213,13 @@ def oracle(c, out):
             return ("flip-not-bitreversal", f"flip_amplitudes(range({n})) = {out['res'][:8]}…, bit reversal is {want[:8]}…")
         if out.get("twice") != list(range(n)):
             return ("flip-not-involutive", f"flipping range({n}) twice gives {out.get('twice', [])[:8]}…")
+        if "again_error" in out:
+            return ("flip-raise", f"flip_amplitudes(np.arange({n})) after an earlier call raised {out['again_error']}")
+        if out.get("again") != want:
+            return ("flip-shared-result", f"flip_amplitudes(range({n})) called again after its first result was overwritten "
+                                          f"gives {out.get('again', [])[:8]}…, bit reversal is {want[:8]}…")
+        if out.get("arg_intact") is False:
+            return ("flip-modifies-argument", f"flip_amplitudes modified its argument np.arange({n})")
         return None
     if k == "load":
         if "err" in out:
@@ -1050,8 +1233,19 @@ def oracle(c, out):
             want = [repr(complex(a, b)) for a, b in zip(re_, im_)]
             if out["snap"]["exact"] != want:
                 return ("saveload-differs", f"loaded amplitudes {out['snap']['exact']} differ from the file contents {want}")
+        if "reload_error" in out:
+            return ("saveload-raise", f"saving the loaded wavefunction {out['snap']['exact']} and loading it again raised "
+                                      f"ValueError: {out['reload_error']}")
         if out["again"]["exact"] != out["snap"]["exact"]:
             return ("saveload-differs", f"save+load changed the amplitudes: {out['snap']['exact']} -> {out['again']['exact']}")
+        if out.get("saved_intact") is False:
+            return ("save-modifies-object", "save_wavefunction changed the object it saved")
+        if "sibling_error" in out:
+            return ("saveload-raise", f"loading a saved file twice and permuting one copy raised {out['sibling_error']}")
+        if out.get("sibling", out["snap"]["exact"]) != out["snap"]["exact"] or \
+                out.get("source_after", out["snap"]["exact"]) != out["snap"]["exact"]:
+            return ("other-object-modified", f"an accepted assignment on one loaded copy changed another object: "
+                                             f"{out['snap']['exact']} -> {out.get('sibling')} / {out.get('source_after')}")
         return None
     return None
 
@@ -1138,7 +1332,22 @@ def distribution(cases, outs):
             seen.add(st["out"] == "ok")
         if seen == {True, False}:
             hist_mixed += 1
-    return {"op_kinds": ops, "op_outcomes": outcomes, "representation_after_op": kinds,
+    objs_hist, earlier, trivial_binds = {}, 0, 0
+    for c, o in zip(cases, outs):
+        if c["kind"] != "ops" or not isinstance(o, dict) or not isinstance(o.get("init"), dict) or not o["steps"]:
+            continue
+        m = len(o["steps"][-1]["snaps"])
+        objs_hist[m] = objs_hist.get(m, 0) + 1
+        for op, st in zip(c["ops"], o["steps"]):
+            if st["target"] != len(st["snaps"]) - 1 - (1 if st["new"] is not None else 0):
+                earlier += 1
+            if op["op"] == "bind":
+                own = {nm for e in st["snaps"][st["target"]]["v"] if e[0] == "lin" for nm, _, _ in e[3]}
+                if st["new"] is not None and not (own & {nm for nm, _ in op["map"]}):
+                    trivial_binds += 1
+    return {"live_objects_per_history": {str(k_): v for k_, v in sorted(objs_hist.items())},
+            "ops_on_an_earlier_object": earlier, "binds_with_empty_or_foreign_map_giving_a_new_object": trivial_binds,
+            "op_kinds": ops, "op_outcomes": outcomes, "representation_after_op": kinds,
             "histories_with_accepted_and_rejected": hist_mixed,
             "lengths": sorted({len(c["vec"]) for c in cases if c["kind"] == "ops"}),
             "skipped_float_boundary_steps": SKIPPED["float_boundary"]}
